@@ -319,7 +319,7 @@ theorem c18_sites_all_partial {ρ : Type} (st : IssueSite) (hst : st ∈ Gozod.G
     dropped, and the message differs -/
 def arrayValidationSnapshot : IssueSite :=
   ⟨"internal/issues/creators.go:CreateArrayValidationIssues:FinalizeIssue#1", "internal/issues/creators.go:CreateArrayValidationIssues:FinalizeIssue",
-   453, true, "finalize", "?", "", "fresh", "fallback", "flow", "flow", ["small-slice"]⟩
+   453, true, "finalize", "?", "", "fresh", "fallback", "flow", "flow", ["small-slice"], 453, "FinalizeIssue", [], false⟩
 
 theorem c18_sites_full_false :
     arrayValidationSnapshot.drops ≠ SrcSet.empty ∧
